@@ -234,7 +234,10 @@ class GeckoUdpSocket:
             self._process_received_data()
             # Do loop for timeout/retry
             for handler in self._receive_handlers:
-                handler.loop(self)
+                try:
+                    handler.loop(self)
+                except Exception:
+                    _LOGGER.exception("Exception during handler loop")
             self._cleanup_handlers()
             self._loop_func()
 
